@@ -21,6 +21,20 @@ async fn completes_now<T>(h: &mut JoinHandle<T>, store: &mut Store) -> Option<T>
     }
 }
 
+/// Key shapes: keys below 3 are one byte long; the others extend each other at lengths around the 8-byte and 32-byte
+/// (digest) boundaries, so that two different keys share a long common prefix.
+fn key_of(k: u8) -> Vec<u8> {
+    match k {
+        0..=2 => vec![k],
+        3 => vec![7u8; 8],
+        4 => { let mut x = vec![7u8; 8]; x.push(1); x }
+        5 => vec![7u8; 16],
+        6 => vec![7u8; 32],
+        7 => { let mut x = vec![7u8; 32]; x.extend_from_slice(&[0, 0, 0, 1]); x }
+        _ => { let mut x = vec![7u8; 32]; x.extend_from_slice(&[0u8; 8]); x }
+    }
+}
+
 /// Executable mirror of C16 over one operation sequence: reads see the latest write; a notify-read completes at once
 /// if the key was written earlier, otherwise on the first later write - for every waiter.
 /// `burst` > 0: before every operation another handle issues that many writes on unrelated keys, so the operation is
@@ -33,7 +47,7 @@ async fn run_ops(ops: &[(u8, u8, u8)], tag: &str, burst: usize) -> Result<(), St
     let mut waiting: Vec<(Vec<u8>, JoinHandle<Vec<u8>>)> = Vec::new();
     let mut other = store.clone();
     for (n, (op, k, v)) in ops.iter().enumerate() {
-        let key = vec![*k];
+        let key = key_of(*k);
         for i in 0..burst {
             other.write(vec![254u8, i as u8], vec![n as u8]).await;
         }
@@ -95,12 +109,17 @@ async fn replay_c16_op_sequences() {
         vec![(2, 1, 0), (0, 1, 7), (2, 1, 0), (1, 1, 0)],
         vec![(2, 1, 0), (2, 1, 0), (2, 2, 0), (0, 1, 3), (0, 2, 4), (2, 1, 0), (0, 1, 5), (1, 1, 0), (2, 1, 0)],
         vec![(0, 1, 1), (0, 1, 2), (1, 1, 0), (2, 1, 0)],
+        // keys that extend each other: a write to one must not be visible under another
+        vec![(0, 6, 1), (1, 7, 0), (1, 8, 0), (0, 7, 2), (1, 6, 0), (1, 8, 0), (0, 3, 3), (1, 4, 0), (1, 5, 0), (0, 5, 4), (1, 3, 0), (1, 6, 0)],
+        vec![(2, 7, 0), (0, 6, 1), (2, 3, 0), (0, 5, 2), (0, 7, 3), (0, 3, 4), (1, 7, 0), (1, 3, 0)],
     ];
     for _ in 0..12 {
         let mut seq = Vec::new();
         for _ in 0..14 {
             x = x.wrapping_mul(6364136223846793005).wrapping_add(1442695040888963407);
-            seq.push(((x >> 40) as u8, ((x >> 33) % 3) as u8, (x >> 20) as u8));
+            // half of the random sequences use the prefix-related key shapes
+            let nkeys = if sequences.len() % 2 == 0 { 3 } else { 9 };
+            seq.push(((x >> 40) as u8, ((x >> 33) % nkeys) as u8, (x >> 20) as u8));
         }
         sequences.push(seq);
     }
@@ -109,11 +128,11 @@ async fn replay_c16_op_sequences() {
         // every third sequence (and the three hand-written ones a second time) runs behind a backlog
         let burst = if i % 3 == 2 { 130 } else { 0 };
         let mut r = run_ops(seq, &i.to_string(), burst).await;
-        if r.is_ok() && i < 3 {
+        if r.is_ok() && i < 5 {
             r = run_ops(seq, &format!("{}b", i), 130).await;
         }
         if let Err(e) = r {
-            failures.push(format!("backlog {} ops {:?}: {}", burst.max(if i < 3 { 130 } else { 0 }), seq.iter().map(|(o, k, _)| (["write", "read", "notify"][(*o % 3) as usize], *k)).collect::<Vec<_>>(), e));
+            failures.push(format!("backlog {} ops {:?}: {}", burst.max(if i < 5 { 130 } else { 0 }), seq.iter().map(|(o, k, _)| (["write", "read", "notify"][(*o % 3) as usize], key_of(*k).len(), *k)).collect::<Vec<_>>(), e));
         }
     }
     for f in failures.iter().take(4) { println!("FAILING-INPUT property=C16 {}", f); }
